@@ -290,6 +290,14 @@ func (e *Env) Go(name string, f func()) *Thread {
 	return th
 }
 
+// Poke wakes the scheduler if it is idling (an environment source has something new to offer).
+func (e *Env) Poke() {
+	select {
+	case e.wake <- struct{}{}:
+	default:
+	}
+}
+
 // AddSource registers an environment source.
 func (e *Env) AddSource(s EnvSource) { e.sources = append(e.sources, s) }
 
@@ -477,6 +485,32 @@ func (e *Env) idle(limit time.Duration) {
 
 func (e *Env) describeThreads() string {
 	var sb strings.Builder
+	stacks := map[uint64]string{}
+	buf := make([]byte, 1<<20)
+	n := runtime.Stack(buf, true)
+	for _, g := range strings.Split(string(buf[:n]), "\n\n") {
+		hdr, rest, _ := strings.Cut(g, "\n")
+		f := strings.Fields(hdr)
+		if len(f) < 2 {
+			continue
+		}
+		id, _ := strconv.ParseUint(f[1], 10, 64)
+		var fr []string
+		for _, ln := range strings.Split(rest, "\n") {
+			if strings.HasPrefix(ln, "\t") || strings.HasPrefix(ln, "created by") {
+				continue
+			}
+			if k := strings.LastIndex(ln, "("); k > 0 {
+				ln = ln[:k]
+			}
+			ln = strings.TrimPrefix(ln, "github.com/scrapli/scrapligo/")
+			fr = append(fr, ln)
+			if len(fr) == 4 {
+				break
+			}
+		}
+		stacks[id] = strings.TrimSuffix(strings.TrimPrefix(hdr[strings.Index(hdr, "["):], "["), "]:") + " " + strings.Join(fr, "<")
+	}
 	for _, th := range e.threads {
 		st := "running/blocked"
 		if th.done {
@@ -487,7 +521,16 @@ func (e *Env) describeThreads() string {
 				st += "(disabled)"
 			}
 		}
+		if !th.done && !th.parked {
+			st += "{" + stacks[th.goid] + "}"
+		}
 		fmt.Fprintf(&sb, "[%s]=%s ", th.Key, st)
+	}
+	fmt.Fprintf(&sb, " t=%v others:", e.Now())
+	for id, st := range stacks {
+		if e.byGoid[id] == nil && strings.Contains(st, "synctest bubble") && id != e.root {
+			fmt.Fprintf(&sb, " {%s}", st)
+		}
 	}
 	return sb.String()
 }
